@@ -102,3 +102,8 @@ impl<Value: NumericId> UnionFind<Value> {
         cur
     }
 }
+
+#[cfg(kani)]
+mod verif_kani {
+    include!(concat!(env!("EGGLOG_VERIF_DIR"), "/kani/uf_seq.rs"));
+}
